@@ -110,7 +110,7 @@ def C19(tier, seed):
     st_disp = iv_chain(tier, ["C19.display"])
     st_apx = Stage("approx", ("Gen_Approx", "Gen_Approx.cfg"), ("Trace_Interval", "Trace_Interval.cfg"),
                    env={"FAMILY": "chain"},
-                   required=["C19.kind_aware", "C19.boundwise", "C19.symmetric", "C19.reflexive",
+                   required=["C19.kind_aware", "C19.boundwise", "C19.symmetric", "C19.ne_is_negation", "C19.reflexive",
                              "C19.implied_by_eq", "C19.abs_exact", "C19.only_low_near", "C19.only_high_near"])
     return {
         "stages": [st_disp, st_apx],
@@ -237,6 +237,14 @@ def C20(tier, seed):
     big.harness_bin = HARNESS_SERDE
     big.required = {"C20.roundtrip_eq", "C20.twin"}
     stages.append(big)
+    # constant samples of an inexact value (0.1, 0.3, 0.7; harmonic 10, 10/3): the restored state must be accepted
+    # and equal although its sum of squares is "inconsistent" with its sum by rounding noise
+    for fl, ty, d in (("arith", "f64", 1), ("arith", "f64", 7), ("arith", "f32", 3), ("harm", "f64", 1), ("unpaired", "f64", 1)):
+        fr = acc_stage(fl, 25, ty=ty, rich=0, R=2, req=[], shards=4, name=f"rt_{fl}_{ty}_frac{d}", simulate="num=%d" % (40 if tier == "quick" else 400))
+        fr.env.update({"ACC_RT": 1, "ACC_FRAC": d})
+        fr.harness_bin = HARNESS_SERDE
+        fr.required = {"C20.roundtrip_eq", "C20.twin"}
+        stages.append(fr)
     # long simulated histories: a dropped or altered compensation term shows only after further accumulation
     for ty, n in (("f32", 150), ("f64", 60)):
         sim = acc_stage("arith", 30, ty=ty, rich=0, R=2, req=[], shards=8, name=f"rt_arith_{ty}_sim", simulate=f"num={n if tier == 'quick' else 10 * n}")
@@ -318,7 +326,7 @@ def C02(tier, seed):
 def C17(tier, seed):
     n = 40 if tier == "quick" else 130
     lv = "sel" if tier == "quick" else "all"
-    row = prop_stage("row", n, ["C17.monotone_in_k", "C17.mirror", "C17.mirror.two", "C17.mirror.lower", "C17.in01", "C17.midpoint"], levels=lv)
+    row = prop_stage("row", n, ["C17.monotone_in_k", "C17.mirror", "C17.mirror.two", "C17.mirror.lower", "C17.in01", "C17.midpoint", "C17.entry_points_agree", "C17.entry_points_agree.large_population"], levels=lv)
     row.mc = list(TABLES_MC)
     return {
         "stages": [row,
